@@ -23,12 +23,12 @@ Inductive err :=
 | ELengthField           (* "length field invalid" *)
 | ECrc                   (* "CRC didn't match ..." *)
 | EInvalidLength         (* decode(): "invalid length" (buffer not consumed exactly) *)
-| EUnknownMagic | EDecompress | EOther.
+| EUnknownMagic | EDecompress | EDepth (* model artefact: nesting fuel of compressed message sets exhausted *) | EOther.
 Definition err_id (e : err) : Z :=
   match e with
   | EInsufficient => 1 | EInvalidArrayLength => 2 | EInvalidByteSliceLength => 3 | EInvalidStringLength => 4
   | EVarintOverflow => 5 | EUVarintOverflow => 6 | EInvalidBool => 7 | EUnsupportedTagged => 8
-  | ELengthField => 9 | ECrc => 10 | EInvalidLength => 11 | EUnknownMagic => 12 | EDecompress => 13 | EOther => 99
+  | ELengthField => 9 | ECrc => 10 | EInvalidLength => 11 | EUnknownMagic => 12 | EDecompress => 99 (* an error of the codec library: not a sarama error value *) | EDepth => 14 | EOther => 99
   end.
 
 (* ------------------------------------------------------------------ decoder state *)
@@ -271,8 +271,12 @@ Inductive eprim :=
 Definition olist {A} (o : option (list A)) : list A := match o with Some l => l | None => [] end.
 
 (* encoder errors *)
-Inductive eerr := EEStringTooLong | EENullArray | EEInvalidSize | EEOther.
-Definition eerr_id (e : eerr) : Z := match e with EEStringTooLong => 1 | EENullArray => 2 | EEInvalidSize => 3 | EEOther => 99 end.
+Inductive eerr := EEStringTooLong | EENullArray | EEInvalidSize | EEInvalidTimestamp | EEBatchVersion | EECompress | EEOther.
+Definition eerr_id (e : eerr) : Z :=
+  match e with
+  | EEStringTooLong => 1 | EENullArray => 2 | EEInvalidSize => 3
+  | EEInvalidTimestamp => 4 | EEBatchVersion => 5 | EECompress => 5 (* same message text in Go *) | EEOther => 99
+  end.
 
 Definition MAX_INT16 := 32767.
 
